@@ -10,11 +10,12 @@
    [ord n l] the iteration order of a HashMap/HashSet.  Where needed the hypotheses are
    "rnd is injective" (no key is drawn twice) and "ord n l is a permutation of l".
 
-   Of the nine commands implemented by a script.ds, the four without loops, array_contains and
-   set_from_array are translated by hand (CollectionsScripts.v) and proved (C12_refines_script,
-   C12_refines_array_contains, C12_refines_set_from_array); array_concat, array_join and
-   map_contains_value are specified (spec) but tied to the code by the correspondence run only
-   (partial). *)
+   Of the nine commands implemented by a script.ds, eight are translated by hand into compositions
+   of the native models (CollectionsScripts.v) and proved against the specification
+   (C12_refines_script, C12_refines_array_contains, C12_refines_set_from_array,
+   C12_refines_array_concat, C12_refines_map_contains_value); the translation itself, like the
+   native models, is tied to the code by the correspondence run.  array_join is specified (spec)
+   but tied to the code by the correspondence run only (partial). *)
 From stdpp Require Import gmap list.
 From Coq Require Import NArith ZArith.
 Require Import DS.Collections DS.CollectionsScripts DS.CollectionsSpec DS.CollectionsTables DS.CollectionsProof.
@@ -45,7 +46,7 @@ Proof. exact refines_run. Qed.
    translated by hand into compositions of the native models (CollectionsScripts.v), compute what
    the specification says; histories over natives and these four agree with the specification *)
 Theorem C12_refines_script : forall rnd ord c args s o,
-  loop_free_script c = true -> step_script rnd c args s = Some o -> o = Done (step_s rnd ord c args s).
+  loop_free_script c = true -> step_script rnd ord c args s = Some o -> o = Done (step_s rnd ord c args s).
 Proof. exact refines_script. Qed.
 (* array_contains, translated with its for-in loop (the handle variable is expanded again at every
    test, the script blanks it to leave the loop): the least index holding the value, or "false" —
@@ -61,6 +62,21 @@ Theorem C12_refines_set_from_array : forall rnd ord args s,
   hs s !! rnd (draws s) = None ->
   script_set_from_array rnd args s = Done (step_s rnd ord CSetFromArray args s).
 Proof. exact rs_set_from_array. Qed.
+(* array_concat, translated with its three loops, computes the as-is definition concat_asis (which is
+   the specification unless an earlier call failed: C12_F6_confined) — provided the key drawn for
+   the result is neither live nor one of the arguments *)
+Theorem C12_refines_array_concat : forall rnd (ord : nat -> list str -> list str) args s,
+  hs s !! rnd (draws s) = None -> rnd (draws s) ∉ args ->
+  script_array_concat rnd args s = Done (concat_asis rnd args s).
+Proof. exact rs_array_concat. Qed.
+(* map_contains_value, translated with its loop over a temporary key array: the answer of the
+   specification, and the handle table is what it was (the key array is released on every path) *)
+Theorem C12_refines_map_contains_value : forall rnd ord args s,
+  (forall n l, ord n l ≡ₚ l) -> hs s !! rnd (draws s) = None -> hs s !! ([] : str) = None ->
+  exists s', script_map_contains_value rnd ord args s
+             = Done ((step_s rnd ord CMapContainsValue args s).1, s') /\
+             hs s' = hs s /\ stale s' = stale s.
+Proof. exact rs_map_contains_value. Qed.
 Theorem C12_no_empty_handle : forall rnd ord s,
   (forall i, rnd i <> []) -> reachable rnd ord s -> hs s !! ([] : str) = None.
 Proof. exact reachable_no_empty. Qed.
